@@ -91,6 +91,14 @@ def history(seed):
                     # other designs use the same variable naming scheme: encodings from the same pool, any order, either construction
                     for coefs, b in rng.sample(SAT_POOL, rng.randint(1, 5)):
                         sm = sat_encode(coefs, b + rng.choice([0, 0, 1, -1]), rng.random() < 0.5)
+                        if rng.random() < 0.5:      # every feature of the manager is used by other designs: flipped and prioritised variables
+                            names = [v for v in sm.vtable if isinstance(v, str) and v.startswith("def_x")]
+                            for v in rng.sample(names, min(2, len(names))):
+                                sm.setflipped(v)
+                            try:
+                                sm.prioritize([sm.newvar("x0")])
+                            except Exception:  # noqa
+                                pass
                         sm.solve()
                     sm = SATManager()
                     sm.heuleencoding([sm.newvar(f"h{i}") for i in range(6)])
@@ -229,7 +237,10 @@ def probe(name, scale):
                                 v = ren[v]
                             row.append(("" if lit.s else "-") + v)
                         clauses.append(row)
-                    digests.append(dict(constraint=[coefs, b, dec], clauses=clauses, sat=sm.solve()))
+                    sat = sm.solve()
+                    model = [int(sm.value(sm.newvar(f"x{i}"))) for i in range(len(coefs))] if sat else None
+                    ok = None if model is None else (sum(c * v for c, v in zip(coefs, model)) >= b)
+                    digests.append(dict(constraint=[coefs, b, dec], clauses=clauses, sat=sat, model_satisfies_the_constraint=ok))
             out["encodings"] = digests
         elif name == "legal":
             import tools.legalfloor.legalfloor as lf
